@@ -108,7 +108,8 @@ def handle (req : Json) : Except String Json := do
   | "inproc" =>
     let r := inproc c.items
     pure (obj [("outs", ofList ofNat r.1), ("err", ofOpt ofNat r.2),
-               ("spec_outs", ofList ofNat (allOuts c)), ("spec_errs", ofList ofNat (allErrs c))])
+               ("spec_outs", ofList ofNat (allOuts c)), ("spec_errs", ofList ofNat (allErrs c)),
+               ("wrapper_skips", Json.bool (wrapperSkips c.items))])
   | "trace" =>
     let tr ← arr (← field req "trace")
     -- error ids the CobaMultiprocessor wrapper turns into CobaExit (none for the filter's own errors in the fixed code)
